@@ -116,6 +116,11 @@ def oracle_run(cfg):
         ok, msg = tol_close(got[sl], want[sl], scale)
     else:
         ok, msg = tol_close(got, want, scale)
+        if ok and cfg['seed'] % 3 == 0:
+            from props import c01
+            new = lambda: DWT1DInverse(wave=wn, mode=lib_mode(cfg)) if cfg['kind'] == '1d' else DWTInverse(wave=c01.wave_arg(cfg, 'rec'), mode=lib_mode(cfg))
+            msg = pow2_homog(lambda dt: (lambda a, m=new().to(dt): m((a[0], list(a[1:])))), [torch.tensor(yl)] + [torch.tensor(h) for h in yh])
+            ok = msg is None
     return None if ok else dict(detail=msg)
 
 
